@@ -909,6 +909,19 @@ func (e *Env) call(v *ast.CallExpr, want *Sort) T {
 			return e.fail("asptr: unknown type %s", s)
 		}
 		return T{S: app("iptr", t.S), So: SRef, GoT: gt}
+	case "asref":
+		// asref(x, "*pkg.T"): an object id viewed as a pointer of that type
+		t := e.compile(v.Args[0], nil)
+		lit, ok := v.Args[1].(*ast.BasicLit)
+		if !ok {
+			return e.fail("asref needs a string literal")
+		}
+		s, _ := strconv.Unquote(lit.Value)
+		gt := g.prog.lookupType(s)
+		if gt == nil {
+			return e.fail("asref: unknown type %s", s)
+		}
+		return T{S: t.S, So: SRef, GoT: gt}
 	case "fresh":
 		t := e.compile(v.Args[0], nil)
 		a0 := g.stGet(e.old, "alloc", SMath)
